@@ -24,6 +24,38 @@ CHECKS = {
         technique="stateless model checking: deviation-bounded DFS over schedules and transport faults of the real goroutine code under a controlled scheduler (synctest bubble); plus exhaustive window arithmetic for every sequence-space size",
         text="Every execution of the uni/bidi scenarios with at most the listed numbers of scheduling deviations and transport faults (drop, in-order dup, delay) is run on the real code and the prefix oracle (Recv results are a prefix of Send-accepted payloads, byte-equal, both directions) is evaluated at every quiescent state. The window arithmetic that depends on N is enumerated for every sequence space s=2..255.",
         note=NOTE_E1),
+    "C06": dict(built=True, engine=E1, level=MC, design="4/C06",
+        technique="stateless model checking of the real goroutine code: every execution with bounded fault prefixes (drop/dup/delay after a clean handshake) and scheduling deviations, virtual time to a 150 s horizon, progress/quiet oracles",
+        text="All executions of the uni/bidi/adaptive/keepalive traffic scenarios within the listed deviation budgets are run to a horizon far beyond any recovery time; at the end every accepted message must have been delivered (keepalive off: no endpoint may have closed), no call may hang after a self-closure, and after everything is acknowledged no DATA packet may be transmitted for 12 s.",
+        note=NOTE_E1 + " Goroutines are not starved (virtual time only advances when no thread can run). Lasso detection is replaced by the long horizon."),
+    "C07": dict(built=True, engine=E1 + "+" + E2, level=EX, design="4/C07",
+        technique="bounded-exhaustive decoder input enumeration (all byte strings <= 3 bytes, 4 bytes by tier) plus model checking of live endpoints with one hostile packet injected at every quiescent point, all 256 SYN window bytes, and bounded-exhaustive truncation/substitution of Noise handshake acts and records",
+        text="Composite: (decoders) every short byte string through gbn.Deserialize, MsgData.Deserialize and the websocket JSON envelope; (live) a hostile packet alphabet injected into either direction at every idle point of a running connection and a raw client proposing every window byte 0..255, with panic and window-invariant oracles at every quiescent state; (noise) every truncation / zero / 0xff / cross-session substitution of each handshake act and of transport records.",
+        note=NOTE_E1 + " Longer random byte strings are not enumerated."),
+    "C09": dict(built=True, engine=E1, level=MC, design="4/C09",
+        technique="stateless model checking of the real goroutine code with ACKs held in flight; white-box window invariants and a black-box outstanding-packet model evaluated at every quiescent state; exhaustive window arithmetic for every s",
+        text="fullwindow scenarios (N=1,2,3 under the deviation ladder, N=20/254 canonical): first N Sends return without virtual time passing, Send N+1 stays blocked while no acknowledgement has been delivered, size<=n, base/top<s, s=n+1 on both endpoints, and first transmissions minus acknowledged (unbounded-integer model fed from the wire log) <= N at every state.",
+        note=NOTE_E1),
+    "C10": dict(built=True, engine=E1, level=MC, design="4/C10",
+        technique="stateless model checking of client and server handshakes: all drop/dup/delay patterns within budget over handshake packets, every stale-packet prefix of length <= 2 in either direction, both start orders, all 256 proposed window bytes through a raw client",
+        text="At every quiescent state a server in the data phase must use exactly the window the client proposed (1..254); at the end (30+ s after the last fault) a side in the data phase with the other still silently handshaking is a violation; the canonical clean run must connect and pass a message each way.",
+        note=NOTE_E1 + " A connection torn down visibly by a late duplicate SYN counts as 'fails visibly' (allowed by the statement)."),
+    "C12": dict(built=True, engine=E1, level=MC, design="4/C12",
+        technique="stateless model checking with closer threads / context cancellation injected at every scheduling point (also twice per side and on both sides), drain phase in virtual time, leak oracle over the scheduler's thread table",
+        text="Close (and a second Close, and later Send/Recv) is injected at every choice point of the traffic and stalled-link scenarios; oracles: every Close returns within 10 s virtual, calls started after it fail, blocked calls return, the peer's calls fail when the transport works, and 30 s after both ends are closed no goroutine spawned by the connection is alive.",
+        note=NOTE_E1),
+    "C13": dict(built=True, engine=E1, level=MC, design="4/C13",
+        technique="stateless model checking with a blackhole fault placed at every scheduling point (idle, sending, full window) and fixed-latency healthy links; virtual time",
+        text="Dead peer: after the transport goes silent at any point, every endpoint with keepalive must have closed by blackhole + ping + pong + 12 s and its calls must fail. Live peer: with one-way latency 0, pong/4 and just under pong/2 over 45 s idle, no endpoint may close, under every single scheduling deviation.",
+        note=NOTE_E1),
+    "C14": dict(built=True, engine=E1, level=MC, design="4/C14",
+        technique="exhaustive product of chunk sizes x message-length sequences on the canonical schedule plus deviation-bounded model checking with faults and with receive/send deadlines expiring inside a message",
+        text="Every (maxChunkSize 0..4) x (sequence of up to 2 (quick) / 3 (thorough) messages of length 0..8 / 0..12) is run on the real connection; selected sequences under the deviation ladder; deadlines that expire between chunks with the timed-out call retried. Oracle: Recv results equal Send-accepted payloads element- and byte-wise.",
+        note=NOTE_E1),
+    "C18": dict(built=True, engine=E1, level=MC, design="4/C18",
+        technique="stateless model checking with every lock/atomic/Once/WaitGroup operation as a scheduling point: unit seams (two threads on one ticker, three on one timeout manager) and the whole connection with API calls from several goroutines and traffic timed onto timer expiries; panic and deadlock oracles",
+        text="All interleavings within budget of the ticker and timeout-manager seams and of a keepalive connection whose peer traffic arrives at the instant of the ping tick (and one quantum either side): no recovered panic in any thread, no thread left waiting for a lock/Once/WaitGroup after the drain.",
+        note=NOTE_E1 + " Data races proper are not decided by the exhaustive step (the cooperative scheduler's hand-offs hide them from the race detector); they are looked for by a separate free-running -race pass reported as auxiliary evidence."),
     "C19": dict(built=True, engine=E2, level=EX, design="4/C19",
         technique="bounded-exhaustive enumeration of codec inputs against a round-trip oracle (every value of every field; every byte string up to 3 bytes, 4 bytes by tier)",
         text="Finite input spaces enumerated completely: all packet types x all 256 values of every one-byte field x both flags x boundary payload lengths; every byte string of length <= 3 and all 4-byte strings with a valid-or-adjacent type byte (all 2^32 in the thorough tier).",
